@@ -29,7 +29,7 @@ ASSUMPTIONS = ["single-threaded interleavings of generator steps only: the harne
                "a use-after-unmap is detected when it crashes the forked child or yields wrong values; there is no sanitizer under CPython",
                "'dropped' generators are finalised by CPython reference counting (+ gc.collect())"]
 EXHAUSTIVE = None
-MUST_HIT = ['owner-finishes-before-borrower-advances', 'generator-dropped', 'write-while-two-generators-live', 'ctx-exit-before-generator-advance',
+MUST_HIT = ['mixed-access-modes', 'failing-access-while-shared', 'owner-finishes-before-borrower-advances', 'generator-dropped', 'write-while-two-generators-live', 'ctx-exit-before-generator-advance',
             'generator-closed-early', 'nested-contexts', 'started-inside-context-advanced-after-exit']
 N = 524288      # int64 elements = 4 MB
 GPARAMS = [dict(chunklen=100000), dict(chunklen=70000, stepsize=150000, startindex=1000, endindex=500000),
@@ -143,10 +143,10 @@ def classify(actions, finish, out):
     return nontrivial
 
 
-def child_run(path, actions, finish):
+def child_run(path, actions, finish, hmode='r+'):
     """Executed in the forked child. Returns None if fine, else a violation dict."""
     import darr
-    a = darr.Array(path, accessmode='r+')
+    a = darr.Array(path, accessmode=hmode)
     model = np.arange(N, dtype='<i8') * 3 + 1
     gens, frames, pos = {}, {}, {}
     ctxs = []
@@ -207,9 +207,16 @@ def child_run(path, actions, finish):
                 if v:
                     return v
         elif k == 'enter':
-            c = a.open_array()
+            c = a.open_array(accessmode=act[1]) if len(act) > 1 else a.open_array()
             c.__enter__()
             ctxs.append(c)
+        elif k == 'badread':
+            # a failing, handled access: must not disturb the other users of the map
+            try:
+                a[N + 5]
+                return {'kind': 'wrong-element', 'callsite': 'getitem', 'detail': 'out-of-range read did not raise'}
+            except IndexError:
+                pass
         elif k == 'exit':
             if ctxs:
                 ctxs.pop().__exit__(None, None, None)
@@ -257,6 +264,13 @@ def execute(ctx, spec):
     out = Outcome()
     actions = normalise([list(a) for a in spec['actions']])
     finish = [list(f) for f in spec.get('finish', [])]
+    hmode = spec.get('hmode', 'r+')
+    if hmode != 'r+' or any(a[0] == 'enter' and len(a) > 1 for a in actions):
+        # mixed access modes: whether a write is possible depends on who opened the shared map first; keep to reads
+        actions = [a for a in actions if a[0] != 'write']
+        out.cls('mixed-access-modes')
+    if any(a[0] == 'badread' for a in actions):
+        out.cls('failing-access-while-shared')
     out.nontrivial = classify(actions, finish, out)
     base = base_array(ctx)
     with ctx.scratch() as d:
@@ -268,7 +282,7 @@ def execute(ctx, spec):
             code = 0
             try:
                 os.close(r)
-                v = child_run(path, actions, finish)
+                v = child_run(path, actions, finish, hmode)
                 if v is not None:
                     os.write(w, json.dumps(v).encode())
                     code = 1
@@ -313,7 +327,7 @@ def execute(ctx, spec):
 # ------------------------------------------------------------------ enumeration
 def alphabet():
     return [['start', 0], ['start', 1], ['next', 0], ['next', 1], ['close', 0], ['close', 1], ['drop', 0], ['drop', 1], ['enter'], ['exit'],
-            ['read', 123456], ['write', 250000, -7]]
+            ['read', 123456], ['write', 250000, -7], ['badread']]
 
 
 def wellformed(L):
@@ -359,6 +373,10 @@ def enum_specs(L):
         # two finishing orders for the survivors
         yield {'actions': acts, 'finish': [['exhaust', 0], ['exhaust', 1], ['exit']]}
         yield {'actions': acts, 'finish': [['exit'], ['exhaust', 1], ['close', 0]]}
+        if len(acts) <= L - 1 and any(a[0] == 'enter' for a in acts) and not any(a[0] == 'write' for a in acts):
+            # the same schedule on a read-only handle whose context asks for 'r+' explicitly
+            acts2 = [a if a[0] != 'enter' else ['enter', 'r+'] for a in acts]
+            yield {'actions': acts2, 'finish': [['exhaust', 0], ['exit'], ['exhaust', 1]], 'hmode': 'r'}
 
 
 @st.composite
@@ -366,18 +384,21 @@ def st_schedule(draw):
     n = draw(st.integers(3, 25))
     acts = []
     for _ in range(n):
-        k = draw(st.sampled_from(['start', 'next', 'next', 'next', 'close', 'drop', 'enter', 'exit', 'read', 'write']))
+        k = draw(st.sampled_from(['start', 'next', 'next', 'next', 'close', 'drop', 'enter', 'exit', 'read', 'write', 'badread']))
         if k in ('start', 'next', 'close', 'drop'):
             acts.append([k, draw(st.integers(0, 2))])
         elif k == 'read':
             acts.append(['read', draw(st.integers(0, N - 10))])
         elif k == 'write':
             acts.append(['write', draw(st.integers(0, N - 10)), draw(st.integers(-1000, 1000))])
+        elif k == 'enter':
+            m = draw(st.sampled_from([None, None, 'r+', 'r']))
+            acts.append(['enter'] if m is None else ['enter', m])
         else:
             acts.append([k])
     order = draw(st.permutations([0, 1, 2, 'x', 'y']))
     finish = [['exit'] if o in ('x', 'y') else [draw(st.sampled_from(['exhaust', 'close', 'drop'])), o] for o in order]
-    return {'actions': acts, 'finish': finish}
+    return {'actions': acts, 'finish': finish, 'hmode': draw(st.sampled_from(['r+', 'r+', 'r']))}
 
 
 def task_enum(ctx, col, shard, L):
